@@ -226,6 +226,53 @@ def generate():
     return "\n".join(L) + "\n"
 
 
+def all_refs(v, acc):
+    if isinstance(v, dict):
+        if isinstance(v.get("$ref"), str):
+            acc.add(v["$ref"])
+        for x in v.values():
+            all_refs(x, acc)
+    elif isinstance(v, list):
+        for x in v:
+            all_refs(x, acc)
+    return acc
+
+
+def generate_meta_urls():
+    """For each draft: the answers of urllib.parse on the finitely many URI questions that arise
+    while a draft's metaschema validates a candidate with a resolver built by check_schema
+    (base = the metaschema's id; references are the `$ref` strings of the metaschema), as an `Env`
+    (`Generated.metaEnv d`). C11's closed computations (the metaschema accepts itself; every
+    reference of the metaschema designates a schema) are evaluated against this table."""
+    sys.path.insert(0, REPO)
+    from urllib.parse import urldefrag, urljoin, urlsplit
+    from jsonschema import validators as V
+    drafts = [("d3", V.Draft3Validator), ("d4", V.Draft4Validator), ("d6", V.Draft6Validator), ("d7", V.Draft7Validator)]
+    L = ["-- AUTOGENERATED by harness/regen.py from the working tree of the repository and this installation's urllib. Do not edit.",
+         "import JS.Basic", "namespace JS.Generated", ""]
+    all_ids = [cls.ID_OF(cls.META_SCHEMA) for _, cls in drafts]
+    for tag, cls in drafts:
+        base = cls.ID_OF(cls.META_SCHEMA)
+        refs = sorted(all_refs(cls.META_SCHEMA, set()))
+        tops = {base}
+        for _ in range(4):
+            tops |= {urljoin(t, r) for t in list(tops) for r in refs}
+        tops = sorted(tops)
+        joins = [(t, r, urljoin(t, r)) for t in tops for r in refs + [base]]
+        urls = sorted(set(j[2] for j in joins) | set(tops))
+        defr = [(u,) + tuple(urldefrag(u)) for u in urls]
+        norms = sorted(set(d[1] for d in defr) | set(all_ids) | {base})
+        L.append("def %sUrljoin : List ((Str × Str) × Str) :=\n  [%s]" % (tag, ",\n   ".join(
+            "((%s, %s), %s)" % (lean_str(a), lean_str(b), lean_str(c)) for a, b, c in joins)))
+        L.append("def %sUrldefrag : List (Str × (Str × Str)) :=\n  [%s]" % (tag, ",\n   ".join(
+            "(%s, (%s, %s))" % (lean_str(u), lean_str(a), lean_str(f)) for u, a, f in defr)))
+        L.append("def %sUrinorm : List (Str × Str) :=\n  [%s]" % (tag, ",\n   ".join(
+            "(%s, %s)" % (lean_str(u), lean_str(urlsplit(u).geturl())) for u in norms)))
+        L.append("")
+    L.append("end JS.Generated")
+    return "\n".join(L) + "\n"
+
+
 def write_if_changed(path, content):
     try:
         if open(path).read() == content:
@@ -241,6 +288,8 @@ def write_if_changed(path, content):
 def main():
     changed = write_if_changed(os.path.join(OUT, "Tables.lean"), generate())
     print("regen: Tables.lean %s" % ("rewritten" if changed else "unchanged"))
+    changed = write_if_changed(os.path.join(OUT, "MetaUrls.lean"), generate_meta_urls())
+    print("regen: MetaUrls.lean %s" % ("rewritten" if changed else "unchanged"))
 
 
 if __name__ == "__main__":
